@@ -10,7 +10,7 @@ MODES = ["empty", "identical", "subset", "substitute", "larger", "disjoint"]
 
 
 def make_runs(run):
-    n = 60 if run.tier == "quick" else 900
+    n = 60 if run.tier == "quick" else 420
     runs = []
     k = 0
     while len(runs) < n and k < 30 * n:
